@@ -713,6 +713,58 @@ theorem F10d_size_lie_overwrites_verified_blob :
     (pullHistory id dcfg Cache.empty [d1, d2]).1.files abcd = some [1, 2, 99, 100] := by decide
 
 
+section
+variable {D : Type} [DecidableEq D]
+
+theorem link_files (sc : Bool) (c : Cache D) (n : Nat) (m : Manifest D) : (c.link sc n m).files = c.files := by
+  unfold Cache.link
+  split
+  · split <;> rfl
+  · rfl
+
+/-- **`pull_success_verified`, full strength, for the repaired tree (`cfg.verify = true`, /repo since
+    2258da28d).**  For ANY starting cache (whatever earlier attempts, failed or not, left: holey
+    or oversized files, stale markers), any manifest, any served chunk plans (broken, repeated,
+    overlapping, past the layer end), any fault script, completion order and MaxStreams: if
+    `Pull` reports success, every layer of the manifest (config included) is in the cache as a
+    file of EXACTLY the manifest's size whose hash, over the WHOLE file, is the manifest's digest. -/
+theorem pull_success_verified (H : Bytes → D) (cfg : Cfg) (hv : cfg.verify = true) (c c' : Cache D)
+    (a : Attempt D) (h : pull H cfg c a = (c', .ok)) :
+    ∃ m, a.man = .ok m ∧ ∀ l ∈ m.all, ∃ f, c'.files l.digest = some f ∧ f.length = l.size ∧ H f = l.digest := by
+  unfold pull at h
+  split at h
+  · cases h
+  · rename_i m hm
+    refine ⟨m, hm, ?_⟩
+    split at h
+    · cases h
+    · split at h
+      · cases h
+      · rename_i st _
+        unfold finish at h
+        simp only [hv, if_true] at h
+        split at h
+        · cases h
+        · split at h
+          · cases h
+          · split at h
+            · cases h
+            · split at h
+              · cases h
+              · rename_i hnone
+                simp only [Prod.mk.injEq, and_true] at h
+                intro l hl
+                have hg : layerGood H st.cache l = true := by
+                  have := List.find?_eq_none.mp hnone l hl
+                  simpa using this
+                unfold layerGood at hg
+                split at hg
+                · rename_i f hf
+                  simp only [Bool.and_eq_true, beq_iff_eq, decide_eq_true_eq] at hg
+                  exact ⟨f, by rw [← h, link_files]; exact hf, hg.1, hg.2⟩
+                · cases hg
+end
+
 /-- the repaired variant (`verify := true`, proposed_fixes/C09-F10abc-verify-before-link.patch) on the
     same scripts: (a), (b), (c) end in `ErrIncomplete`, nothing is linked, the bad blob is removed -/
 def rcfg : Cfg := ⟨2, none, true, true⟩
@@ -724,6 +776,26 @@ theorem F10abc_repaired_variant :
     (pull id rcfg Cache.empty b1).2 = .err .incomplete ∧ (pull id rcfg Cache.empty b1).1.links 0 = none ∧
     (pull id rcfg Cache.empty c1).2 = .err .incomplete ∧ (pull id rcfg Cache.empty c1).1.links 0 = none := by
   decide
+
+/-- the seeded-change scenario on the repaired variant: attempt 1 is served `ab 0-1, cd 2-3, zz 4-5`
+    for the 4-byte layer (every chunk verifies, the file grows to 6 bytes, the counter says 6/4);
+    attempt 2 gets the honest list: both chunks are marker-cached, the counter is exact, and only
+    the whole-file check (size equal AND hash equal) refuses the oversized file and removes it;
+    attempt 3 downloads afresh and succeeds with exactly `abcd`. -/
+def o1 : Attempt Bytes :=
+  ⟨0, .ok mABCD, [.list [⟨[97, 98], 0, 2⟩, ⟨[99, 100], 2, 2⟩, ⟨[122, 122], 4, 2⟩]],
+    [.release 0 (.body [[97, 98]] .eof), .release 0 (.body [[99, 100]] .eof), .release 0 (.body [[122, 122]] .eof)]⟩
+def o2 : Attempt Bytes := ⟨0, .ok mABCD, [.list [⟨[97, 98], 0, 2⟩, ⟨[99, 100], 2, 2⟩]], []⟩
+def o3 : Attempt Bytes :=
+  ⟨0, .ok mABCD, [.list [⟨[97, 98], 0, 2⟩, ⟨[99, 100], 2, 2⟩]],
+    [.release 0 (.body [[97, 98]] .eof), .release 0 (.body [[99, 100]] .eof)]⟩
+
+theorem oversized_blob_refused_then_refetched :
+    (pullHistory id rcfg Cache.empty [o1]).1.files abcd = some [97, 98, 99, 100, 122, 122] ∧
+    (pullHistory id rcfg Cache.empty [o1, o2, o3]).2 = [.err .incomplete, .err .incomplete, .ok] ∧
+    (pullHistory id rcfg Cache.empty [o1, o2]).1.files abcd = none ∧
+    (pullHistory id rcfg Cache.empty [o1, o2]).1.links 0 = none ∧
+    (pullHistory id rcfg Cache.empty [o1, o2, o3]).1.files abcd = some abcd := by decide
 
 /-! ### Non-vacuity: the hypotheses of the theorems above are met by non-trivial values -/
 
